@@ -6,19 +6,15 @@ pub mod element_parser_fns {
 use super::*;
 use crate::tokenizer;
 pub use crate::element_parser::*;
-use crate::parser_impl::ep_name;
-//@fn id=element_parse_pure file=element_parser.rs name=parse props=C10 stub=only trusted="assumed: element_parser::parse is a pure function of the token value (safe code, no interior mutability, no globals): whether it returns Some, and the name it returns, are functions ep_name of *token"
-//@ret r
-//@ensures label=element_parse_is_a_function_of_the_token
-    (r is Some) == (ep_name(*token) is Some),
-    r matches Some(e) ==> e.name@ == ep_name(*token)->0,
-//@end
+//@include ep_vocab.vs
+//@import element_parse only=parse_name_is_the_first_range
 }
 
 pub mod parser_impl {
 use super::*;
 use crate::tokenizer;
 use crate::element_parser_fns as element_parser;
+use crate::element_parser_fns::ep_name;
 use crate::parser::*;
 //@item file=parser.rs kind=enum name=State
 
